@@ -22,10 +22,12 @@ HEADER = ("From Coq Require Import ZArith String List Bool.\nRequire Import V.Ba
 class Tr:
     """Expressions are translated with a static type in {'str','int','bool','optint','optstr','strlist','none'}."""
 
-    def __init__(self, env, dicts, lists=None):
+    def __init__(self, env, dicts, lists=None, attrs=None, oracles=None):
         self.env = dict(env)
         self.dicts = dicts          # name -> value type ('int' | 'str')
         self.lists = lists or {}    # name -> 'strlist'
+        self.attrs = attrs or {}    # (object name, attribute) -> (Gallina variable, type): fields of argument objects
+        self.oracles = oracles or {}  # self.<method>(...) -> (Gallina variable, type): calls replaced by a function argument
 
     def expr(self, e):
         if isinstance(e, ast.Constant):
@@ -44,6 +46,11 @@ class Tr:
             if e.id in self.lists:
                 return (e.id, "strlist")
             raise Unsupported(f"unknown name {e.id}")
+        if isinstance(e, ast.Attribute) and isinstance(e.value, ast.Name) and (e.value.id, e.attr) in self.attrs:
+            return self.attrs[(e.value.id, e.attr)]
+        if (isinstance(e, ast.Call) and isinstance(e.func, ast.Attribute) and isinstance(e.func.value, ast.Name) and e.func.value.id == "self"
+                and e.func.attr in self.oracles and not e.keywords):
+            return self.oracles[e.func.attr]
         if isinstance(e, ast.Attribute) and isinstance(e.value, ast.Name) and e.value.id == "self":
             k = "self." + e.attr
             if k in self.env:
@@ -117,6 +124,12 @@ class Tr:
             if isinstance(op, (ast.Eq, ast.NotEq)) and lt == rt == "int":
                 c = f"(Z.eqb {l} {r})"
                 return (c if isinstance(op, ast.Eq) else f"(negb {c})", "bool")
+            if isinstance(op, (ast.In, ast.NotIn)) and lt == "optstr" and rt == "strlist":
+                c = f"(opt_in {l} {r})"
+                return (c if isinstance(op, ast.In) else f"(negb {c})", "bool")
+            if isinstance(op, (ast.Eq, ast.NotEq)) and lt == "optstr" and rt == "str":
+                c = f"(opt_eqb {l} {r})"
+                return (c if isinstance(op, ast.Eq) else f"(negb {c})", "bool")
             if isinstance(op, (ast.In, ast.NotIn)) and lt == "str" and rt == "strlist":
                 c = f"(existsb (String.eqb {l}) {r})"
                 return (c if isinstance(op, ast.In) else f"(negb {c})", "bool")
@@ -126,6 +139,9 @@ class Tr:
             if cmpf and lt == rt == "int":
                 return (f"(Z.{cmpf} {l} {r})", "bool")
             raise Unsupported(f"compare {ast.dump(op)} {lt} {rt}")
+        if (isinstance(e, ast.BoolOp) and isinstance(e.op, ast.Or) and len(e.values) == 2 and isinstance(e.values[1], ast.List) and not e.values[1].elts
+                and self.expr(e.values[0])[1] == "strlist"):
+            return self.expr(e.values[0])                      # `xs or []` on a list-or-None field read as a list
         if isinstance(e, ast.BoolOp):
             parts = [self.expr(v) for v in e.values]
             if isinstance(e.op, ast.Or) and len(parts) == 2 and {parts[0][1], parts[1][1]} <= {"key", "optstr"}:
@@ -140,6 +156,10 @@ class Tr:
             return (acc, "bool")
         if isinstance(e, ast.UnaryOp) and isinstance(e.op, ast.Not):
             c, t = self.expr(e.operand)
+            if t == "optstr":
+                return (f"(negb (opt_truthy {c}))", "bool")
+            if t == "strlist":
+                return (f"(negb (list_truthy {c}))", "bool")
             if t != "bool":
                 raise Unsupported("not on non-bool")
             return (f"(negb {c})", "bool")
@@ -188,6 +208,10 @@ class Tr:
             c, t = self.expr(s.test)
             if t == "key":
                 c, t = f"(key_truthy {c})", "bool"
+            if t == "optstr":
+                c, t = f"(opt_truthy {c})", "bool"
+            if t == "strlist":
+                c, t = f"(list_truthy {c})", "bool"
             if t != "bool":
                 raise Unsupported("non-bool test")
             saved = dict(self.env)
@@ -244,8 +268,18 @@ def find_assign(mod, name):
     return hits[0]
 
 
-def function_def(fn, coqname, argtypes, rettype, dicts, lists=None, selfattrs=None):
+def function_def(fn, coqname, argtypes, rettype, dicts, lists=None, selfattrs=None, attrs=None, oracles=None, binders=None):
+    """attrs / oracles / binders: see Tr; when `binders` is given the arguments are objects whose fields (attrs) and the
+    oracle results become the Gallina function's arguments, in the order of `binders` [(name, type), ...]."""
     args = [a.arg for a in fn.args.args if a.arg != "self"]
+    if binders is not None:
+        if fn.args.vararg or fn.args.kwarg or fn.args.kwonlyargs:
+            raise Unsupported(f"{fn.name}: signature")
+        tr = Tr({}, dicts, lists, attrs, oracles)
+        body = tr.body(fn.body, rettype)
+        cty = {"str": "string", "int": "Z", "bool": "bool", "optint": "option Z", "optstr": "option string", "strlist": "list string"}
+        bs = " ".join(f"({a} : {cty[t]})" for a, t in binders)
+        return f"Definition {coqname} {bs} : {cty[rettype]} :=\n  {body}."
     if fn.args.vararg or fn.args.kwarg or fn.args.kwonlyargs or len(args) != len(argtypes):
         raise Unsupported(f"{fn.name}: signature")
     env = dict(zip(args, argtypes))
